@@ -1,11 +1,58 @@
 (* C03 — messages from one sender are processed in the order they were sent.
-   Statements only; proofs are in C03/Proofs.v. *)
-From Coq Require Import List Bool Arith ZArith.
+   Statements only; proofs are in C03/Proofs.v (system = sender programs "Tell (t,0); Tell (t,1); ..."
+   composed with per-key reservation queues of C04/Contract.v; the consumer may serve any key). *)
+From Coq Require Import List Bool Arith ZArith Sorted.
 Import ListNotations.
-From GV Require Import C04.Contract C03.Model.
+From GV Require Import C04.Contract C03.Model C03.Proofs.
 
-Theorem C03_placeholder_rq_fifo : forall (Msg : Type) (dec : forall a b : Msg, {a = b} + {a <> b}) (cap : option nat),
-  fifo_contract dec (rq dec cap).
-Proof. exact rq_fifo. Qed.
+(* Single-queue FIFO mailboxes (UnboundedMailbox, segmented, Workiva ring, Vyukov ring: one key, any
+   capacity): for ANY number of sender threads and ANY interleaving of their reserve/publish steps
+   with the consumer, the sequence numbers of the messages of thread t that the actor has handled
+   are strictly increasing — send order; also when a bounded mailbox refuses some of them. *)
+Theorem C03_fifo_single_queue : forall (cap : option nat) (s : sys) (t : nat),
+  reach (fun _ => 0%nat) cap s -> StronglySorted lt (seqs t (handled s)).
+Proof. intros cap s t H. exact (per_sender_fifo (fun _ => 0%nat) cap s t H). Qed.
 
-Print Assumptions C03_placeholder_rq_fifo.
+(* UnboundedFairMailbox: per-sender sub-queues (key = sender identity, possibly shared by several
+   threads); the consumer may serve the sub-queues in any order (round-robin is one such order). *)
+Theorem C03_fifo_per_sender_queues : forall (key : nat -> nat) (s : sys) (t : nat),
+  reach key None s -> StronglySorted lt (seqs t (handled s)).
+Proof. intros key s t H. exact (per_sender_fifo key None s t H). Qed.
+
+(* every handled message was sent by its sender, and is handled at most once *)
+Theorem C03_handled_were_sent : forall key cap s t q,
+  reach key cap s -> In (t, q) (handled s) -> (q < nextseq s t)%nat.
+Proof. exact handled_were_sent. Qed.
+
+Theorem C03_handled_at_most_once : forall key cap s t,
+  reach key cap s -> NoDup (seqs t (handled s)).
+Proof. exact handled_once. Qed.
+
+(* BatchTell is the loop "for m in messages: Tell m": the same sender program. *)
+
+(* Stash: a generation of messages that arrive while the actor stashes and are then unstashed is
+   processed exactly once, in arrival order ((1,i) = stashed, (0,i) = processed). *)
+Theorem C03_stash_generation : forall (ids : list Z) lg,
+  arun (length ids + S (S (length ids))) (mkAst (map Send ids ++ [StashOff; UnstashAll]) [] true lg)
+  = mkAst [] [] false (lg ++ map (fun i => (1%Z, i)) ids ++ map (fun i => (0%Z, i)) ids).
+Proof. exact stash_generation. Qed.
+
+(* UnstashAll re-delivers the whole stash box oldest first, behind what is already queued. *)
+Theorem C03_unstash_all_in_order : forall (queued box : list Z) lg,
+  arun (S (length queued + length box)) (mkAst (UnstashAll :: map Send queued) box false lg)
+  = mkAst [] [] false (lg ++ map (fun i => (0%Z, i)) queued ++ map (fun i => (0%Z, i)) box).
+Proof. exact unstash_all_in_order. Qed.
+
+(* Unstash re-delivers exactly the oldest stashed message. *)
+Theorem C03_unstash_one_oldest : forall (queued : list Z) i box lg,
+  arun (S (S (length queued))) (mkAst (UnstashOne :: map Send queued) (i :: box) false lg)
+  = mkAst [] box false (lg ++ map (fun j => (0%Z, j)) queued ++ [(0%Z, i)]).
+Proof. exact unstash_one_oldest. Qed.
+
+Print Assumptions C03_fifo_single_queue.
+Print Assumptions C03_fifo_per_sender_queues.
+Print Assumptions C03_handled_were_sent.
+Print Assumptions C03_handled_at_most_once.
+Print Assumptions C03_stash_generation.
+Print Assumptions C03_unstash_all_in_order.
+Print Assumptions C03_unstash_one_oldest.
